@@ -372,12 +372,43 @@ func vRejected(rsp *sdcpb.TransactionSetResponse, err error) bool {
 // resulting configuration is valid; the verdict must be exactly the validity of
 // the configuration that results, and must equal the verdict for that same
 // configuration submitted as one intent to an empty datastore.
+// v04Switches: param "vswitch" sets the operator's validator switches (config.Validators): 0 all
+// on (but must, see vkMust), 1 length disabled, 2 pattern disabled, 3 range disabled, 4 leafref
+// disabled, 5 mandatory disabled, 6 min/max-elements disabled. A constraint is ENFORCED iff its
+// validator is not disabled: the verdict depends on the enforced constraints only. Returns the
+// aspect that is not enforced ("" = none).
+func v04Switches(env *vEnv) string {
+	dv := &env.ds.config.Validation.DisabledValidators
+	switch verifrt.Param("vswitch", 0) {
+	case 1:
+		dv.Length = true
+		return "length"
+	case 2:
+		dv.Pattern = true
+		return "pattern"
+	case 3:
+		dv.Range = true
+		return "range"
+	case 4:
+		dv.Leafref = true
+		return "leafref"
+	case 5:
+		dv.Mandatory = true
+		return "mandatory"
+	case 6:
+		dv.MaxElements = true
+		return "min-max-elements"
+	}
+	return ""
+}
+
 func VerifVerdictIsValidity() {
 	sc, kind := vScenarioValidators()
 	env := vNewEnv()
 	if kind == vkMust {
 		env.ds.config.Validation.DisabledValidators.MustStatement = false
 	}
+	notEnforced := v04Switches(env)
 	var pre *vState
 	if verifrt.Param("empty", 0) == 1 {
 		// empty stores; the configuration arrives in one transaction, possibly split over two intents
@@ -416,6 +447,9 @@ func VerifVerdictIsValidity() {
 		}
 	}
 	aspects := post.validAspects(kind)
+	if notEnforced != "" {
+		delete(aspects, notEnforced)
+	}
 	valid := vAllValid(aspects)
 	m := post.merged("m.")
 	before := vSnapshot(env.model)
@@ -457,6 +491,7 @@ func VerifVerdictIsValidity() {
 		if kind == vkMust {
 			env2.ds.config.Validation.DisabledValidators.MustStatement = false
 		}
+		v04Switches(env2)
 		rsp2, err2 := vStep(env2, sc, "m1", []*vRequest{m}, false)
 		rejected2 := vRejected(rsp2, err2)
 		verifrt.Reach("differential-done")
